@@ -115,7 +115,7 @@ def generate(rng, prop, tier):
         pass
     # NIS helper triples for removeInnovation<m> (m = 1..4), boundary-targeted
     nis_ops = []
-    for _ in range(6):
+    for _ in range(16):
         m = rng.randint(1, 4)
         kk = rng.choice([0.5, 1.0, 3.0, 5.0])
         A = np.array([[rng.uniform(-1, 1) for _ in range(m)] for _ in range(m)])
@@ -124,7 +124,7 @@ def generate(rng, prop, tier):
         dvec = np.array([[rng.gauss(0, 1)] for _ in range(m)])
         q = float((dvec.T @ Sinv @ dvec).item())
         thr = kk * math.sqrt(2 * m) + m
-        delta = rng.choice([-1, 1]) * rng.choice([1e-7, 1e-4, 0.05, 0.5, 3.0])
+        delta = rng.choice([-1, 1]) * rng.choice([4e-9, 1e-8, 3e-8, 1e-7, 1e-4, 0.05, 0.5, 3.0])
         alpha = math.sqrt(max(thr * (1 + delta), 0.0) / q)
         nis_ops.append({"m": m, "k": fx(kk), "z": [fx(alpha * v[0]) for v in dvec], "Sinv": [[fx(v) for v in row] for row in Sinv]})
     if rng.random() < 0.5:  # exact tie for the helper: S^-1 = diag(1,2), z = (2,2), k = 5: NIS = 12 = 5*2+2
@@ -159,6 +159,11 @@ def driver_source(d):
     for s in S:
         A(f"  std::printf(\" %a\", sv.state.{s}());")
     A(f"  for (int i = 0; i < {n}; ++i) for (int j = 0; j < {n}; ++j) std::printf(\" %a\", sv.covariance.data(i, j));\n  std::printf(\"\\n\");\n}}")
+    # named accessors: covariance diagonal by name, const and non-const state accessors
+    A("static void print_named(const SV& sv) {\n  SV m = sv; std::printf(\"V\");")
+    for s_ in S:
+        A(f"  std::printf(\" %a %a %a\", sv.covariance.{s_}(), m.covariance.{s_}(), m.state.{s_}());")
+    A("  std::printf(\"\\n\");\n}")
     A(f"static bool same_sv(const SV& a, const SV& b) {{\n  for (int i = 0; i < {n}; ++i) {{ double x = a.state.data(i, 0), y = b.state.data(i, 0); if (std::memcmp(&x, &y, sizeof x)) return false; }}")
     A(f"  for (int i = 0; i < {n}; ++i) for (int j = 0; j < {n}; ++j) {{ double x = a.covariance.data(i, j), y = b.covariance.data(i, j); if (std::memcmp(&x, &y, sizeof x)) return false; }}\n  return true;\n}}")
     if has_ctl:
@@ -233,9 +238,11 @@ def driver_source(d):
     for si, key in enumerate(sensors):
         T = key.title()
         m = len(d["sensors"][key]["readings"])
-        A(f"        case {si}: {{ {T} r = read_reading_{si}(ls); out = ekf.sensor_model(sv{gcal_arg}, r); auto inn = ekf.innovations<{T}>();")
+        rn_ = sorted(d["sensors"][key]["readings"])
+        acc = " ".join(f'std::printf(" %a", r.{r_}());' for r_ in rn_)
+        A(f"        case {si}: {{ {T} r = read_reading_{si}(ls); std::printf(\"A\"); {acc} std::printf(\"\\n\"); out = ekf.sensor_model(sv{gcal_arg}, r); auto inn = ekf.innovations<{T}>();")
         A("          std::printf(\"I\"); if (inn) { for (int i = 0; i < %d; ++i) std::printf(\" %%a\", (*inn)(i, 0)); } else std::printf(\" none\"); std::printf(\"\\n\"); break; }" % m)
-    A("        default: std::abort();\n      }\n      print_sv(\"R\", out); std::printf(\"D %d\\n\", same_sv(out, sv) ? 1 : 0); continue; }")
+    A("        default: std::abort();\n      }\n      print_sv(\"R\", out); std::printf(\"D %d\\n\", same_sv(out, sv) ? 1 : 0); print_named(out); continue; }")
     A("    if (cmd == \"NEWMF\") { double t0 = rd(ls); SV sv = read_sv(ls); g_held = sv;")
     A(f"      mf = std::make_unique<MF>(t0, sv{gcal_arg}); continue; }}")
     A("    if (cmd == \"MFTICK\") { double t_out = rd(ls);")
@@ -416,7 +423,7 @@ def _lockstep(schedule, leg, res):
                     u = ref.update(key, x_in, P_in, {r: xf(op["values"][r]) for r in rn}, k)
                     lines.append(f"UPDATE {sensors.index(key)} {_sv_line(S, x_in, P_in)} " + " ".join(fx(xf(op["values"][r])) for r in rn))
                     unchanged = out[0].data.tobytes() == st.data.tobytes() and out[1].data.tobytes() == cov.data.tobytes()
-                    expect.append(("update", i, out, {"inn": np.array(pe.innovations[key]), "unchanged": unchanged, "u": u, "m": len(rn), "pmax": float(np.max(np.abs(P_in))) if P_in.size else 0.0,
+                    expect.append(("update", i, out, {"inn": np.array(pe.innovations[key]), "unchanged": unchanged, "u": u, "m": len(rn), "z": [xf(op["values"][r]) for r in rn], "pmax": float(np.max(np.abs(P_in))) if P_in.size else 0.0,
                                                       "xmax": (max(abs(v) for v in x_in.values()) + (float(np.max(np.abs(u["K"] @ u["inn"]))) if (u is not None and u["K"].size) else 0.0))}))
                     st, cov = out
                     mf = None
@@ -431,7 +438,17 @@ def _lockstep(schedule, leg, res):
                         expect.append(("newmf", i, None, None))
                     readings = [StampedReading(xf(r["t"]), r["sensor"], **{q: xf(v) for q, v in r["values"].items()}) for r in op["readings"]]
                     kw = {"control": ctl} if U else {}
+                    before = (mf.current_time, mf.state, mf.covariance)
                     out = mf.tick(xf(op["t_out"]), readings=readings if (readings or op["has_list"]) else None, **kw)
+                    # sensitivity of this tick to a 1e-12 relative perturbation of the held state (chaotic models amplify the
+                    # few-ulp differences between two correct implementations; the comparison allows 5% of this amplification)
+                    try:
+                        pst = pe.State.from_data(before[1].data * (1.0 + 1e-12) + 1e-13)
+                        rd2 = [StampedReading(xf(r["t"]), r["sensor"], **{q: xf(v) for q, v in r["values"].items()}) for r in op["readings"]]
+                        out2 = ManagedFilter(pe, before[0], pst, before[2]).tick(xf(op["t_out"]), readings=rd2 if (rd2 or op["has_list"]) else None, **kw)
+                        sens = (float(np.max(np.abs(out2.state.data - out.state.data))), float(np.max(np.abs(out2.covariance.data - out.covariance.data))))
+                    except Exception:  # noqa: BLE001
+                        sens = (float("inf"), float("inf"))
                     parts = [f"MFTICK {fx(xf(op['t_out']))}{cvals} {len(readings)} {int(op['has_list'])}"]
                     for r in op["readings"]:
                         rn = sorted(d["sensors"][r["sensor"]]["readings"])
@@ -441,7 +458,12 @@ def _lockstep(schedule, leg, res):
                     for f in op["faults"]:
                         res.stats["fault:" + f] += 1
                     lines.append(" ".join(parts))
-                    expect.append(("tick", i, out, {"n": len(readings), "pmax": track.pmax, "xmax": track.xmax}))
+                    groups, cur_t = [], held_t
+                    for r in op["readings"]:
+                        groups.append((cur_t, xf(r["t"])))
+                        cur_t = xf(r["t"])
+                    groups.append((cur_t, xf(op["t_out"])))
+                    expect.append(("tick", i, out, {"n": len(readings), "pmax": track.pmax, "xmax": track.xmax, "sens": sens, "groups": groups, "sensors": [(sensors.index(r["sensor"]), r["rid"]) for r in op["readings"]]}))
                     track.pmax = track.xmax = 0.0
                     st, cov = mf.state, mf.covariance  # what the python runtime holds (direct ops continue from there)
                     if readings:
@@ -481,12 +503,23 @@ def _compare(schedule, expect, out_lines, res, n, S):
             _cmp_sv(res, "C07", "predict", i, out, xs, Ps)
             res.stats["predict"] += 1
         elif kind == "update":
+            acc = nxt("A")
             inn = nxt("I")
             r = nxt("R")
             dline = nxt("D")
-            if r is None or dline is None:
+            named = nxt("V")
+            if r is None or dline is None or acc is None or named is None:
                 raise RuntimeError("driver output truncated")
             xs, Ps = _parse_sv(r, n)
+            # named accessors on the C++ side must address the same slots as the by-name API on the python side
+            zin = extra["z"]
+            if [float.fromhex(v) for v in acc] != zin:
+                res.add("C07", "reading_accessor", "C07:cpp:reading_accessor", i, f"reading accessors return the named values {zin}", f"{[float.fromhex(v) for v in acc]}", "cpp")
+            nv = [float.fromhex(v) for v in named]
+            for j in range(n):
+                if not (nv[3 * j] == Ps[j, j] and nv[3 * j + 1] == Ps[j, j] and nv[3 * j + 2] == xs[j, 0]):
+                    res.add("C07", "named_accessor", "C07:cpp:named_accessor", i, f"covariance.{S[j]}() == data({j},{j}) and state.{S[j]}() == data({j},0)", f"{nv[3 * j: 3 * j + 3]} vs {Ps[j, j]}, {xs[j, 0]}", "cpp")
+                    break
             cpp_unchanged = dline[0] == "1"
             u = extra["u"]
             res.stats["update"] += 1
@@ -514,15 +547,26 @@ def _compare(schedule, expect, out_lines, res, n, S):
                 res.add("C06", "disabled_discards_cpp", "C06:cpp:disabled_discards", i, "with filtering disabled no reading is discarded", "c++ estimate unchanged", "cpp")
             _cmp_sv(res, "C07", "update", i, out, xs, Ps, extra["pmax"], extra["xmax"])
         else:
-            r = nxt("R")
+            # the P/S lines the recording subclass printed during this tick come before its R line
+            calls = []
+            r = None
+            for ln in it:
+                if ln.startswith("P "):
+                    calls.append(("P", float.fromhex(ln.split()[1])))
+                elif ln.startswith("S "):
+                    calls.append(("S", int(ln.split()[1]), int(ln.split()[2])))
+                elif ln.startswith("R "):
+                    r = ln.split()[1:]
+                    break
             h = nxt("H")
             bh = nxt("B")
             if r is None or h is None:
                 raise RuntimeError("driver output truncated")
+            _check_steps(res, schedule, i, calls, extra, combo)
             xs, Ps = _parse_sv(r, n)
             res.stats["tick"] += 1
             res.stats[f"probe:tick_readings={min(extra['n'], 3)}"] += 1
-            _cmp_sv(res, "C07", "tick", i, (out.state, out.covariance), xs, Ps, extra["pmax"], extra["xmax"])
+            _cmp_sv(res, "C07", "tick", i, (out.state, out.covariance), xs, Ps, extra["pmax"], extra["xmax"], extra["sens"])
             if h[0] != "1":
                 xb, Pb = _parse_sv(bh, n)
                 res.add("C12", "tick_vs_by_hand", f"C12:cpp:tick_vs_by_hand:{combo}", i, f"tick == by-hand replay of the logged calls, bit for bit: {xb.T.tolist()}", f"tick returned {xs.T.tolist()}", "cpp")
@@ -566,11 +610,46 @@ def _compare(schedule, expect, out_lines, res, n, S):
             res.add("C06", "decision_helper", f"C06:cpp:decision:removeInnovation:m={m}", 0, f"{'discard' if want else 'keep'}: z^T S^-1 z = {float(nv)!r} vs k*sqrt(2m)+m = {float(thr)!r}", f"removeInnovation<{m}> returned {dline[0]}", "cpp")
 
 
-def _cmp_sv(res, prop, kind, i, out, xs, Ps, pmax=0.0, xmax=0.0):
-    """rounding of P - K H P and x + K(z-h) is relative to the largest magnitude along the way (cancellation), not to the result"""
+def _check_steps(res, schedule, i, calls, extra, combo):
+    """C12 (3): the calls the runtime issued on the generated filter form the fold: sensor updates in list order, and
+    between them prediction steps that lead from one time to the next (direction, bound, sum)."""
+    from fractions import Fraction
+
+    from fsim.worlds import rt_trace
+
+    max_dt = Fraction(xf(schedule["config"]["max_dt_sec"]))
+    segs, cur, sc = [], [], []
+    for c in calls:
+        if c[0] == "S":
+            segs.append(cur)
+            cur = []
+            sc.append((c[1], c[2]))
+        else:
+            cur.append(c[1])
+    segs.append(cur)
+    if sc != extra["sensors"]:
+        res.add("C12", "tick_sensor_calls", f"C12:cpp:tick_sensor_calls:{combo}", i, f"sensor updates (sensor index, reading id) in list order {extra['sensors']}", f"{sc}", "cpp")
+        return
+    tmp = Result()
+    seen = [Fraction(a) for a, _b in extra["groups"]]
+    for g, ((a, b), seg) in enumerate(zip(extra["groups"], segs)):
+        rt_trace.check_group(tmp, "cpp", i, g, Fraction(a), Fraction(b), seg, max_dt, seen)
+    for v in tmp.violations:
+        res.add("C12", "tick_steps_" + v["clause"], f"C12:cpp:tick_steps:{v['clause']}:{combo}", i, v["expected"], v["observed"], "cpp")
+
+
+def _cmp_sv(res, prop, kind, i, out, xs, Ps, pmax=0.0, xmax=0.0, sens=(0.0, 0.0)):
+    """rounding of P - K H P and x + K(z-h) is relative to the largest magnitude along the way (cancellation), not to the result;
+    for multi-step ticks 5% of the measured response to a 1e-12 perturbation of the input is allowed on top (chaotic models)"""
     so, co = out
-    ex = (float(np.max(np.abs(xs - so.data))) / (1.0 + max(float(np.max(np.abs(so.data))), xmax))) if so.data.size else 0.0
-    eP = (float(np.max(np.abs(Ps - co.data))) / (1.0 + max(float(np.max(np.abs(co.data))), pmax))) if co.data.size else 0.0
+    if not (np.all(np.isfinite(xs)) and np.all(np.isfinite(Ps))) and (sens[0] == float("inf")):
+        return
+    dx = max(0.0, float(np.max(np.abs(xs - so.data))) - 0.05 * sens[0]) if so.data.size else 0.0
+    dP = max(0.0, float(np.max(np.abs(Ps - co.data))) - 0.05 * sens[1]) if co.data.size else 0.0
+    if sens[0] > 1e-9 or sens[1] > 1e-9:
+        res.stats["probe:chaotic_tick_slack_used"] += 1
+    ex = dx / (1.0 + max(float(np.max(np.abs(so.data))), xmax)) if so.data.size else 0.0
+    eP = dP / (1.0 + max(float(np.max(np.abs(co.data))), pmax)) if co.data.size else 0.0
     res.stats["worst_x_e-15"] = max(res.stats.get("worst_x_e-15", 0), int(ex * 1e15))
     res.stats["worst_P_e-15"] = max(res.stats.get("worst_P_e-15", 0), int(eP * 1e15))
     if ex > TOL:
